@@ -246,6 +246,39 @@ def gen_dirc(rng, nops=50):
     ops += ["opendev 0 1", "mount 0 0 1", "usedirc 1", "list 0 0 1", "usedirc 0", "list 0 0 1", "free 0 0"] + epilogue()
     return ops
 
+def gen_dircspill(rng, nops=None):
+    """dircache profile around the moment a directory's cache chain grows by one block and shrinks again: in a
+    subdirectory, entries are added one at a time; after each, the newest entry is removed (while it may be alone in the
+    newest cache block), a file is created in the ROOT directory (the next allocation), and the subdirectory is used
+    again (re-create, comment, rename), so that a wrongly released or wrongly kept cache block meets a bystander"""
+    dostype = rng.choice([4, 5, 6, 7])
+    ops = prologue(dostype, clock=(2011, 3, 4, 5, 6, 7))
+    ops.append("usedirc 1")
+    ops += [f"mkdir 0 0 {hx(b'D')}", f"open 1 0 0 {hx(b'keep')} 2", "write 1 900 9", "close 1", f"chdir 0 0 {hx(b'D')}"]
+    nlen = rng.choice([1, 2, 6, 12])
+    base = rng.randint(10, 16) if nlen <= 2 else rng.randint(6, 12)
+    names = []
+    for i in range(base):
+        nm = b"%02d" % i + b"x" * (nlen - 1)
+        names.append(nm)
+        if i % 3 == 0: ops.append(f"mkdir 0 0 {hx(nm)}")
+        else: ops += [f"open 1 0 0 {hx(nm)} 2", f"write 1 {rng.choice([0, 5, 500])} {i}", "close 1"]
+    for k in range(base, base + rng.randint(6, 10)):
+        nm = b"%02d" % k + b"x" * (nlen - 1)
+        ops += [f"open 1 0 0 {hx(nm)} 2", "write 1 5 1", "close 1", f"remove 0 0 {hx(nm)}", "toroot 0 0",
+                f"open 1 0 0 {hx(b'r%02d' % k)} 2", f"write 1 {rng.choice([10, 600, 1500])} {k}", "close 1",
+                f"chdir 0 0 {hx(b'D')}", f"open 1 0 0 {hx(nm)} 2", "write 1 5 2", "close 1"]
+        r = rng.random()
+        if r < 0.4: ops.append(f"comment 0 0 {hx(names[0])} {hx(b'c' * rng.choice([1, 20, 60]))}")
+        elif r < 0.7:
+            new = names[1][:2] + b"y" * rng.choice([1, 9])
+            if new not in names: ops.append(f"rename 0 0 {hx(names[1])} {hx(new)}"); names[1] = new
+        names.append(nm)
+    ops += ["list 0 0 1", "toroot 0 0", "list 0 0 1"]
+    for k in range(base, base + 3): ops += [f"open 2 0 0 {hx(b'r%02d' % k)} 1", "read 2 4000", "close 2"]
+    ops += [f"open 2 0 0 {hx(b'keep')} 1", "read 2 4000", "close 2", "usedirc 0", "list 0 0 1", "free 0 0"] + epilogue()
+    return ops
+
 def gen_pagecross(rng, nops=None):
     """a hardfile with 3-4 bitmap pages: files large enough to run across the boundaries between bitmap pages (blocks
     2+4064k), deleted and re-created, so that blocks on both sides of every page boundary are allocated and released"""
